@@ -30,9 +30,10 @@ def judge(case):
     if sys.getrecursionlimit() > 1000:
         raise harness.HarnessError("recursion limit was raised")
     T = sg.Tensor
-    if kind.startswith("untracked_layer_chain"):
+    if kind.startswith("untracked_layer_chain") or kind.startswith("frozen_layer_chain"):
         nn = sg.nn
         which = kind.split(":")[1]
+        frozen = kind.startswith("frozen_layer_chain")
         sg.manual_seed(3)
         if which == "conv2d": L = nn.Conv2d(1, 1, 3, padding=1); x = T(np.ones((1, 1, 4, 4), dtype=np.float32) * 0.1)
         elif which == "conv1d": L = nn.Conv1d(1, 1, 3, padding=1); x = T(np.ones((1, 1, 6), dtype=np.float32) * 0.1)
@@ -41,14 +42,24 @@ def judge(case):
         else: L = nn.Sequential(nn.Linear(3, 3), nn.Tanh()); x = T(np.ones((2, 3), dtype=np.float32) * 0.1)
         refs = []
         m = min(n, 2000)
-        with sg.no_grad():
+        if frozen:
+            # gradient tracking is ON, but every parameter is frozen and the input is plain data: no operand requires grad
+            L.freeze()
+            if which == "batchnorm": L.eval()
             for i in range(m):
-                x = L(x)                              # trainable parameters, but gradient tracking is off
+                x = L(x)
                 if i < m - 10: refs.append(weakref.ref(x))
+            if x.requires_grad: v("history-kept", f"the output of a frozen {which} layer applied to plain data requires grad")
+        else:
+            with sg.no_grad():
+                for i in range(m):
+                    x = L(x)                              # trainable parameters, but gradient tracking is off
+                    if i < m - 10: refs.append(weakref.ref(x))
         gc.collect()
         alive = sum(1 for r in refs if r() is not None)
         if alive > 4:
-            v("history-kept", f"{alive} of {len(refs)} earlier outputs of a {which} layer applied repeatedly under no_grad are still alive")
+            v("history-kept", f"{alive} of {len(refs)} earlier outputs of a {which} layer applied repeatedly "
+              f"{'with all parameters frozen (tracking on, plain input)' if frozen else 'under no_grad'} are still alive")
         return {"nontrivial": n >= 100, "outcome": "ok", "violations": viol}
     if kind == "detach_each_step":
         w = T(np.array([0.5, -0.25]), requires_grad=True)
@@ -287,10 +298,11 @@ def all_cases(tier):
                  "untracked_no_grad+retain_grads", "untracked_no_operand_requires_grad+retain_grads",
                  "untracked_no_grad+varying_scalars", "untracked_no_operand_requires_grad+varying_scalars", "detach_each_step",
                  "untracked_layer_chain:conv2d", "untracked_layer_chain:conv1d", "untracked_layer_chain:linear", "untracked_layer_chain:batchnorm",
-                 "untracked_layer_chain:sequential"):
+                 "untracked_layer_chain:sequential", "frozen_layer_chain:conv2d", "frozen_layer_chain:conv1d", "frozen_layer_chain:linear",
+                 "frozen_layer_chain:batchnorm", "frozen_layer_chain:sequential"):
         for n in sizes:
             if kind == "ladder" and n > 20000: continue
-            if kind.startswith("untracked_layer_chain") and n not in (100, 1000): continue
+            if (kind.startswith("untracked_layer_chain") or kind.startswith("frozen_layer_chain")) and n not in (100, 1000): continue
             out.append({"kind": kind, "n": n})
     for shape in ("chain", "ladder", "tree", "fanin", "fanin_stack_computed", "chain_retain_each", "chain_built_under_retain_grads", "chain_from_many_leaves"):
         for n in ((100, 250) if tier == "quick" else (100, 250, 600)):
